@@ -90,7 +90,7 @@ add("C15", "exploration",
     "The whole interval of value lengths 0..3x4096+1 is swept for WriteStringNocopy/WriteBinaryNocopy with a nil and a recording direct writer and buffers with exact and spare capacity; all sequences of <= 3 calls over boundary lengths; Base with every combination of small/threshold-1/threshold/threshold+1 for its three strings, a map key and a map value (4^5 + nil/empty map), BaseResp, ApplicationException. structs with 2..70 map entries of large values (streams compared as decoded structs, maps as sets) and writes that follow a failed (panicked, recovered) write. Oracle: an independent splice of the linear bytes with the recorded (slice, remainCap) pairs must equal the copying path; direct writes only with a writer attached, positions in stream order, every piece covered by its remaining capacity, the linear bytes before a position final when it is announced, returned n + direct bytes == advertised length; which values go direct (the threshold) and whether pieces alias the caller's memory are the library's choice and are not asserted; a second, end-relative splice convention is cross-checked.",
     COMMON_NOTE, "full interval sweep + bounded-exhaustive combinations against an independent splice oracle", "E6", "5/C15")
 add("C16", "exploration",
-    "For every value-length class across the span allocator's size classes a run of consecutive decodes long enough to wrap the 1 MiB span (thorough: twice), all results retained, plus all ordered pairs of classes alternating, on 10 entry points (Base and ApplicationException FastRead also into values that already hold the arriving message) and both span-cache settings; afterwards the input is overwritten, reader buffers are released and scribbled by a pool co-tenant, and every retained value must be unchanged; the capacity ranges of all returned values are checked pairwise disjoint and disjoint from the input by a sorted address sweep, and appending to / overwriting returned slices must leave siblings and input intact.",
+    "For every value-length class across the span allocator's size classes a run of consecutive decodes long enough to wrap the 1 MiB span (thorough: twice), all results retained, plus all ordered pairs of classes alternating (short runs and runs that wrap the span) and all ordered triples of distinct classes, on 10 entry points (Base and ApplicationException FastRead also into values that already hold the arriving message) and both span-cache settings; afterwards the input is overwritten, reader buffers are released and scribbled by a pool co-tenant, and every retained value must be unchanged; the capacity ranges of all returned values are checked pairwise disjoint and disjoint from the input by a sorted address sweep, and appending to / overwriting returned slices must leave siblings and input intact.",
     COMMON_NOTE + "Strings may share memory with other strings (the Go runtime interns 1-byte strings); only mutable ranges are required to be disjoint.",
     "bounded-exhaustive enumeration of decode histories per allocator size class with aliasing oracle (address sweep + mutation)", "E6+E4", "5/C16")
 
